@@ -32,6 +32,7 @@ import numpy as np
 from scipy.spatial import ConvexHull
 
 import gen
+import history
 from common import L, I, ModelRaise, exc_kind
 
 MARGIN = 1e-7
@@ -42,7 +43,11 @@ RULE = ("shapes: gen.convex_solid (all kinds, random rigid motion/offset/scale) 
         "blocks, stairs, cup, cage, random) and gen.c05_extruded_polygon (rectilinear, star, zigzag) as Polyhedron "
         "in exact (axis-permuting, dyadic) and general rigid placements; Sphere, Ellipsoid. points: uniform in the "
         "enlarged box, at controlled signed distance from faces/edges/vertices, lattice points sharing coordinates "
-        "with vertices; batches of 1..2000, shapes (3,) and (N,3). distinct = distinct (shape, batch); "
+        "with vertices; knife-edged cores (wedges with slanted ends, flat bipyramids, needle hulls, sliver tetrahedra) with "
+        "points targeted at the rounding shell r(1 +- 1e-4..0.25) of every edge near its ends (fan swept by angle) and of "
+        "every vertex; a third of the objects of every class reached through a history (harness/history.py: scaled copy, "
+        "all members and queries read, size/centroid/radius setters); batches of 1..2000, shapes (3,) and (N,3). "
+        "distinct = distinct (shape, batch); "
         "non-trivial = batch containing certified inside and outside points")
 ASSUMPTIONS = [
     "membership in conv(V) means: explicit convex weights exist (Spec/Inside3D.lean MemHull); non-convex solids are the "
@@ -285,6 +290,128 @@ def convex_points(rng, v, n):
                 pts.append(p)
             lab.append("shared-coordinate")
     return np.array(pts), lab
+
+
+def sharp_core(rng):
+    """convex cores with knife edges (small dihedral angles) whose end vertices are shared with faces leaning over or
+    away from the edge: wedges with slanted end faces, flat (irregular) bipyramids, needle hulls, sliver tetrahedra."""
+    for _ in range(50):
+        kind = str(rng.choice(["wedge", "flat-bipyramid", "needle-hull", "sliver-tet"]))
+        alpha = np.deg2rad(10 ** rng.uniform(np.log10(3.0), np.log10(55.0)))   # dihedral angle of the knife edge
+        if kind == "wedge":
+            Ln, depth = float(rng.uniform(1, 5)), float(rng.uniform(1, 4))
+            h = depth * np.tan(alpha / 2)
+            s1, s2 = rng.uniform(-0.8, 0.9, size=2) * depth     # > 0: the end face leans over the sharp edge
+            s1, s2 = max(s1, -0.45 * Ln), max(s2, -0.45 * Ln)
+            v = np.array([[0, 0, 0], [Ln, 0, 0], [-s1, depth, h], [Ln + s2, depth, h], [-s1, depth, -h], [Ln + s2, depth, -h]],
+                         dtype=float)
+        elif kind == "flat-bipyramid":
+            n = int(rng.integers(3, 8))
+            ang = np.sort(rng.uniform(0, 2 * np.pi, size=n)) if rng.random() < 0.5 else 2 * np.pi * np.arange(n) / n
+            rad = rng.uniform(0.6, 1.4, size=n) if rng.random() < 0.5 else np.ones(n)
+            ring = np.c_[rad * np.cos(ang), rad * np.sin(ang), np.zeros(n)]
+            h = float(np.tan(alpha / 2)) * 0.5
+            off = rng.uniform(-0.25, 0.25, size=2)
+            v = np.vstack([ring, [off[0], off[1], h], [off[0] * float(rng.uniform(-1, 1)), off[1], -h * float(rng.uniform(0.5, 1.5))]])
+        elif kind == "needle-hull":
+            k = int(rng.integers(6, 13))
+            v = rng.normal(size=(k, 3)) * np.array([1.0, float(rng.uniform(0.08, 0.3)), float(rng.uniform(0.03, 0.3))])
+            v = gen.hull_vertices_only(v)
+        else:
+            Ln, depth = float(rng.uniform(1, 4)), float(rng.uniform(0.5, 3))
+            h = depth * np.tan(alpha / 2)
+            a, b = rng.uniform(-0.5, 1.5, size=2) * Ln
+            v = np.array([[0, 0, 0], [Ln, 0, 0], [a, depth, h], [b, depth, -h]], dtype=float)
+        try:
+            if len(v) < 4:
+                continue
+            v, info = gen.place(rng, v)
+            if gen.in_convex_position(v):
+                info["kind"] = "sharp:" + kind
+                info["n"] = len(v)
+                return v, info
+        except Exception:  # noqa: BLE001
+            continue
+    raise RuntimeError("could not generate a sharp core")
+
+
+def hull_edges(v, hull):
+    """true edges of conv(v): (a, b, n1, n2, cos of the angle between the two facet normals)."""
+    adj = {}
+    for k, sidx in enumerate(hull.simplices):
+        for a, b in ((sidx[0], sidx[1]), (sidx[1], sidx[2]), (sidx[2], sidx[0])):
+            adj.setdefault((int(min(a, b)), int(max(a, b))), []).append(k)
+    out = []
+    for (a, b), ks in adj.items():
+        if len(ks) != 2:
+            continue
+        n1, n2 = hull.equations[ks[0], :3], hull.equations[ks[1], :3]
+        c = float(n1 @ n2)
+        if c > 1 - 1e-9:
+            continue   # diagonal of a flat face
+        out.append((a, b, n1, n2, c))
+    return out
+
+
+def sphero_shell_points(rng, v, hull, r, n):
+    """points TARGETED at the outer shell of the rounding of every edge and vertex: signed distance r(1 +- small) from an
+    edge, at positions near the edge ends measured in units of r, in directions sweeping the edge's normal fan
+    (incl. both extremes); and around vertices in directions of their normal cones."""
+    size = gen.diameter(v)
+    edges = hull_edges(v, hull)
+    if not edges:
+        return np.zeros((0, 3)), []
+    wts = np.array([1.0 + 3.0 * (c < 0.0) + 3.0 * (c < -0.7) for (_, _, _, _, c) in edges])
+    wts /= wts.sum()
+    vnorm = {}
+    for k, sidx in enumerate(hull.simplices):
+        for a in sidx:
+            vnorm.setdefault(int(a), []).append(hull.equations[k, :3])
+    pts, lab = [], []
+    rr = r if r > 0 else size * 1e-3
+    for _ in range(n):
+        delta = float(rng.choice([3e-4, 3e-3, 0.02, 0.05, 0.1, 0.2, 0.35])) if rng.random() < 0.3 \
+            else float(10 ** rng.uniform(-4, -0.6))
+        t = rr * (1 + delta if rng.random() < 0.4 else 1 - delta)
+        a, b, n1, n2, c = edges[int(rng.choice(len(edges), p=wts))]
+        if rng.random() < 0.5:
+            a, b = b, a
+        E = v[b] - v[a]
+        Ln = float(np.linalg.norm(E))
+        if rng.random() < 0.8:
+            # edge shell, close to the end `a`: offset along the edge in units of the radius
+            u = rng.random()
+            if u < 0.6:
+                sl = min(rr * float(rng.uniform(0.05, 1.0)), 0.5 * Ln)
+            elif u < 0.8:
+                sl = min(rr * float(rng.choice([0.05, 0.15, 0.3, 0.5, 0.8, 1.2, 2.0])), 0.5 * Ln)
+            else:
+                sl = float(rng.uniform(0, 1)) * Ln
+            u = rng.random()
+            if u < 0.5:
+                th = float(np.clip(rng.normal(0.5, 0.12), 0.0, 1.0))      # around the bisector of the fan
+            elif u < 0.8:
+                th = float(rng.choice([0.0, 0.1, 0.3, 0.5, 0.7, 0.9, 1.0]))
+            else:
+                th = float(rng.random())
+            # sweep the normal fan of the edge by ANGLE (the fan of a knife edge is almost a half turn)
+            phi = float(np.arccos(np.clip(c, -1.0, 1.0)))
+            d = np.sin((1 - th) * phi) * n1 + np.sin(th * phi) * n2
+            nd = np.linalg.norm(d)
+            if nd < 1e-12:
+                continue
+            pts.append(v[a] + E * (sl / Ln) + t * d / nd)
+            lab.append("shell-edge-end" if c < 0 else "shell-edge-end-blunt")
+        else:
+            ns = np.array(vnorm[int(a)])
+            w = rng.dirichlet(np.ones(len(ns)) * float(rng.choice([0.2, 1.0])))
+            d = w @ ns
+            nd = np.linalg.norm(d)
+            if nd < 1e-12:
+                continue
+            pts.append(v[a] + t * d / nd)
+            lab.append("shell-vertex")
+    return np.array(pts).reshape(-1, 3), lab
 
 
 def sphero_points(rng, v, hull, r, n):
@@ -598,6 +725,13 @@ def eval_convex(ctx, case):
     except Exception as e:  # noqa: BLE001
         ctx.fail("ConvexPolyhedron.__init__:raises", "constructor raised on a set in convex position", slim(case, []), repr(e))
         return
+    # a third of the objects of every class: the same geometry REACHED THROUGH A HISTORY (scaled/shifted copy, every
+    # member and query incl. is_inside read once, size / centroid / radius setters) - harness/history.py
+    hr = history.rng_for(np.r_[v.ravel(), r, len(P)])
+    cp, how_cp = history.maybe_via_history(cp, hr, 0.33, ctx)
+    ph, how_ph = history.maybe_via_history(ph, hr, 0.33, ctx)
+    sp, how_sp = history.maybe_via_history(sp, hr, 0.33, ctx)
+    case = dict(case, reached={"cp": how_cp, "ph": how_ph, "sp": how_sp})
     expect, smax, hull = hull_oracle(ctx, v, P, size)
     for lb, e in zip(labels, expect):
         ctx.count("points:" + lb)
@@ -605,7 +739,7 @@ def eval_convex(ctx, case):
     eqs = _f(cp._equations)
     contract_planes(ctx, "Qhull(ConvexPolyhedron)", eqs, v, size)
     # ---------------- theorem hypotheses on the implementation's own data (exact, Q)
-    if sorted(map(tuple, _f(cp.vertices).tolist())) != sorted(map(tuple, v.tolist())):
+    if how_cp == "direct" and sorted(map(tuple, _f(cp.vertices).tolist())) != sorted(map(tuple, v.tolist())):
         ctx.fail("ConvexPolyhedron.vertices:changed", "the stored vertices are not the input vertices (as a set)",
                  slim(case, []), None)
     cert_ok, eta, Rbox, o_cert = facet_certificate(ctx, cp, P, size, case)
@@ -736,6 +870,7 @@ def eval_sphero(ctx, case, sp, cp, v, hull, smax, P0, labels0, size, r, rng):
     ctx.count("sphero-radius:" + ("0" if r == 0 else "1e%d" % int(np.floor(np.log10(r / size)))))
     res, err = call_is_inside(sp, P)
     cls = "ConvexSpheropolyhedron"
+    cp = sp.polyhedron          # the object's OWN core (it may have been reached through setters)
     prisms, perr = prism_equations(cp, r)
     eqs = _f(cp._equations)
     faces = [cp.vertices[f] for f in cp.faces]
@@ -830,6 +965,8 @@ def eval_solid(ctx, case):
     except Exception as e:  # noqa: BLE001
         ctx.fail("Polyhedron.__init__:raises", "constructor raised on a valid non-convex mesh", slim(case, []), repr(e))
         return
+    ph, how_ph = history.maybe_via_history(ph, history.rng_for(np.r_[V.ravel(), len(P)]), 0.33, ctx)
+    case = dict(case, reached={"ph": how_ph})
     res, err = call_is_inside(ph, P)
     kind = solid["kind"].split(":")[0]
     if err is not None:
@@ -873,6 +1010,8 @@ def eval_curved(ctx, case):
         nearb = np.abs(rho - 1) * ax.min() < MARGIN * ax.max()
         model = ctx.driver.F("in3.ellipsoid", ax[0], ax[1], ax[2], cen, L(list(P)))
         what = "sum(((p-c)_i/a_i)^2) <= 1"
+    shape, how = history.maybe_via_history(shape, history.rng_for(np.r_[cen, P.ravel()[:30], len(P)]), 0.33, ctx)
+    case = dict(case, reached={"shape": how})
     expect = np.where(nearb, -1, np.array(exact, dtype=int))
     ctx.skipped_near_boundary += int(np.sum(nearb))
     for lb, e in zip(labels, expect):
@@ -946,17 +1085,29 @@ def make_convex_case(ctx, rng, v, info, big=False):
     c = rng.random()
     if c < 0.12:
         r = 0.0
+    elif str(info.get("kind", "")).startswith("sharp:") and c < 0.8:
+        r = size * 10 ** float(rng.uniform(-2, -0.3))     # rounding comparable to / smaller than the knife edges
     else:
         r = size * 10 ** float(rng.uniform(-3, 2))
     hull = ConvexHull(v)
     SP, slab = sphero_points(rng, v, hull, r, max(4, n // 3))
+    sharp = str(info.get("kind", "")).startswith("sharp:")
+    SH, shlab = sphero_shell_points(rng, v, hull, r, (min(ctx.budget(200, 110), 600) if sharp else max(20, n // (5 if getattr(ctx, 'tier', 'quick') == 'quick' else 9))) if not big else 300)
+    if len(SH):
+        SP = np.vstack([SP, SH])
+        slab = list(slab) + shlab
     return {"class": "convex", "vertices": v.tolist(), "radius": r, "points": P.tolist(), "labels": lab,
             "sphero_points": SP.tolist(), "sphero_labels": slab, "info": info,
             "subseed": int(rng.integers(2 ** 31))}
 
 
 def make_solid_case(ctx, rng, big=False):
-    solid = gen.c05_voxel_solid(rng) if rng.random() < 0.6 else gen.c05_extruded_polygon(rng)
+    for _ in range(20):
+        try:
+            solid = gen.c05_voxel_solid(rng) if rng.random() < 0.6 else gen.c05_extruded_polygon(rng)
+            break
+        except RuntimeError:      # the star generator gave up after its rejection budget: draw again
+            continue
     pl = gen.c05_placement(rng)
     n = pick_n(ctx, rng, big)
     M, lab = solid_points(rng, solid, n)
@@ -989,7 +1140,7 @@ def run(ctx):
     n_tab = ctx.budget(6, 60)
     n_big = ctx.budget(1, 12)
     for k in range(n_convex):
-        v, info = gen.convex_solid(rng)
+        v, info = sharp_core(rng) if (k % 3 == 2) else gen.convex_solid(rng)
         ctx.count("kind:" + info["kind"])
         ctx.count("placement:" + ("rotated" if info["rotated"] else "axis-aligned"))
         case = make_convex_case(ctx, rng, v, info, big=(k < n_big))
